@@ -13,6 +13,11 @@ import JsonbModel.PathPrint
 namespace Jsonb.Driver
 open Jsonb.Wire
 
+/-- literals compare as `Number`s in the Rust AST (`Int64(5) == UInt64(5)`): a non-negative
+`I` literal and the `U` literal of the same value are the same for the round-trip comparison -/
+def numNorm (t : String) : String :=
+  (List.range 10).foldl (fun acc d => acc.replace ("(val I" ++ toString d) ("(val U" ++ toString d)) t
+
 def pathStep : List String → Option String
   | ["jpparse", h] =>
     match bytesOfHex h with
@@ -60,7 +65,7 @@ def pathStep : List String → Option String
          if (Canon.showJsonPath jp).contains 'D' then some "skip" else
          let text := printJsonPath (fun _ => [63]) jp
          (match parseJsonPath text with
-          | .ok jp2 => some (if Canon.showJsonPath jp2 == Canon.showJsonPath jp then "ok"
+          | .ok jp2 => some (if numNorm (Canon.showJsonPath jp2) == numNorm (Canon.showJsonPath jp) then "ok"
                              else "MISMATCH reparsed " ++ Canon.showJsonPath jp2)
           | _ => some ("MISMATCH printout rejected " ++ hexOfBytes text))
        | .err _ => some "not-accepted"
